@@ -492,6 +492,8 @@ def _run_check(pid, args, seed, t0):
     violations = []          # (path, key, detail)
     known_lines = []
 
+    shutil.rmtree(os.path.join(OUT, "violations", pid), ignore_errors=True)
+
     # --- regression tier: committed replays ------------------------------
     replays = sorted(glob.glob(os.path.join(VERIF, "replays", pid, "*.json")))
     n_replays = 0
